@@ -207,4 +207,16 @@ var props = map[string]*propDef{
 			{Name: "compress.VerifC08Frames", Quick: map[string]int{"maxlen": 1}, Thorough: map[string]int{"maxlen": 3}},
 		},
 	},
+	"C02": {
+		ID: "C02", Level: "model_checking", Rule: ruleDefault,
+		Assumptions: append([]string{
+			"Client.Do is run with its three goroutines as cooperative coroutines (switches only at connection/context/channel operations); the connection is a harness net.Conn that copies written bytes at Write time",
+			"oracle: an independent reference encoder of the client side of the protocol (harness/ch/ref.go) with its own revision thresholds; city.CH128 uninterpreted",
+			"zap and OpenTelemetry are stubbed (instrumentation off); the client is built in-package without a handshake (handshake: C13)",
+		}, baseAssumptions...),
+		Harnesses: []harnessDef{
+			{Name: "ch.VerifC02Query", Quick: map[string]int{"maxstr": 1}, Thorough: map[string]int{"maxstr": 2}},
+			{Name: "ch.VerifC02Insert", Quick: map[string]int{"maxrows": 2}, Thorough: map[string]int{"maxrows": 3}},
+		},
+	},
 }
